@@ -5,5 +5,6 @@ CONSTANTS
   Workers = 2
   Size <- SizeSmall
   StartInJob = FALSE
+  DestroyWaits = TRUE
 INVARIANTS NoUseAfterDestroy CounterExact BestIsMin
 CHECK_DEADLOCK FALSE
